@@ -76,61 +76,13 @@ theorem shLex_literal_run (cs : Str) (hl : ∀ c ∈ cs, shLiteral c = true) (w 
     rw [List.cons_append, shLex_unq_lit _ _ _ _ hc, ih (fun x hx => hl x (by simp [hx]))]
     simp
 
-theorem shLex_sgl_repl (cs : Str) (hn : ∀ c ∈ cs, c ≠ nul) (cur tail : Str) (w : Bool) :
-    shLex .sgl w cur (replSq cs ++ sq :: tail) = shLex .unq true (cur ++ cs) tail := by
-  induction cs generalizing cur w with
-  | nil => simp [replSq, shLex_sgl_sq]
-  | cons c cs ih =>
-    have hc := hn c (by simp)
-    have ih' := fun cur w => ih (fun x hx => hn x (by simp [hx])) cur w
-    by_cases h : c = sq
-    · subst h
-      simp only [replSq, if_true, List.cons_append]
-      rw [shLex_sgl_sq, shLex_unq_dq, shLex_dbl_sq, shLex_dbl_dq, shLex_unq_sq, ih']; simp
-    · simp only [replSq, h, if_false, List.cons_append]
-      rw [shLex_sgl_char _ _ _ _ h hc, ih']; simp
-
 /-- no NUL anywhere in the argument list -/
 def NoNul (args : List Str) : Prop := ∀ a ∈ args, ∀ c ∈ a, c ≠ nul
 
 instance (args : List Str) : Decidable (NoNul args) := by unfold NoNul; infer_instance
 
-theorem shLex_quote (a : Str) (hn : ∀ c ∈ a, c ≠ nul) (tail : Str) :
-    shLex .unq false [] (shQuote a ++ tail) = shLex .unq true a tail := by
-  unfold shQuote
-  split
-  · rename_i he
-    have : a = [] := by simpa using he
-    subst this
-    simp [shLex_unq_sq, shLex_sgl_sq]
-  · rename_i he
-    split
-    · rename_i hs
-      have hl : ∀ c ∈ a, shLiteral c = true := fun c hc =>
-        safe_sub_literal c (by simp only [allSafe, List.all_eq_true] at hs; exact hs c hc)
-      rw [shLex_literal_run a hl]; simp [he]
-    · simp only [List.cons_append, List.append_assoc]
-      rw [shLex_unq_sq, shLex_sgl_repl a hn]; simp
-
 theorem shLex_unq_end (cur : Str) : shLex .unq true cur [] = some [cur] := by
   simp [shLex]
-
-theorem sh_roundtrip_aux (args : List Str) (hn : NoNul args) :
-    shLex .unq false [] (join [' '] (args.map shQuote)) = some args := by
-  induction args with
-  | nil => simp [join, shLex]
-  | cons a r ih =>
-    have ha : ∀ c ∈ a, c ≠ nul := hn a (by simp)
-    have hr : NoNul r := fun b hb => hn b (by simp [hb])
-    cases r with
-    | nil =>
-      have := shLex_quote a ha []
-      simp only [List.append_nil] at this
-      simp [join, this, shLex_unq_end]
-    | cons b r' =>
-      simp only [List.map_cons, join] at ih ⊢
-      rw [List.append_assoc, shLex_quote a ha, List.singleton_append, shLex_unq_blank, ih hr]
-      rfl
 
 end C14
 
@@ -277,6 +229,9 @@ theorem crt_cmdGo (v : CrtVariant) (q : Bool) (cs : Str) (n : Nat) (cur : Str) (
           rw [crt_plain _ _ _ _ _ _ _ hc0 h1 h2 (Or.inl (hq hqf c (by simp))), ih 0 _ true hq' hn' (by simp)]
           simp [bs_zero]
 
+theorem contains_iff' (s : Str) (c : Char) : s.contains c = true ↔ c ∈ s := by
+  simp
+
 theorem needQuote_false {a : Str} (h : needQuote a = false) : a ≠ [] ∧ ∀ c ∈ a, isBlank c = false := by
   simp only [needQuote, Bool.or_eq_false_iff] at h
   obtain ⟨⟨h1, h2⟩, h3⟩ := h
@@ -286,19 +241,43 @@ theorem needQuote_false {a : Str} (h : needQuote a = false) : a ≠ [] ∧ ∀ c
   · intro e; subst e; simp_all
   · intro e; subst e; simp_all
 
-theorem crt_cmdArg (v : CrtVariant) (a : Str) (hn : ∀ c ∈ a, c ≠ nul) (t : Str) (ht : IsTail t) :
-    crt v false false 0 [] (cmdArg a ++ t) = a :: crt v false false 0 [] (t.drop 1) := by
-  unfold cmdArg
-  cases hq : needQuote a with
+theorem crt_cmdArgQ (v : CrtVariant) (qp : Str → Bool) (hq : ∀ a, needQuote a = true → qp a = true)
+    (a : Str) (hn : ∀ c ∈ a, c ≠ nul) (t : Str) (ht : IsTail t) :
+    crt v false false 0 [] (cmdArgQ qp a ++ t) = a :: crt v false false 0 [] (t.drop 1) := by
+  unfold cmdArgQ
+  cases hqa : qp a with
   | true =>
     simp only [if_true, List.cons_append]
     rw [crt_dq_even _ _ _ _ _ _ (by omega) (Or.inl rfl)]
     show crt v true true 0 [] (cmdGo true 0 a ++ t) = _
     rw [crt_cmdGo v true a 0 [] true t (by simp) hn (by simp) ht]; simp [bs_zero]
   | false =>
-    obtain ⟨hne, hb⟩ := needQuote_false hq
+    have hnq : needQuote a = false := by
+      cases h : needQuote a with
+      | false => rfl
+      | true => rw [hq a h] at hqa; cases hqa
+    obtain ⟨hne, hb⟩ := needQuote_false hnq
     simp only [Bool.false_eq_true, if_false]
     rw [crt_cmdGo v false a 0 [] false t (fun _ => hb) hn (fun _ => ⟨rfl, Or.inr hne⟩) ht]; simp [bs_zero]
+
+/-- translator obligation on the regenerated class of quote-forcing characters: blank and tab are in it -/
+def cmdTableOk : Bool := cmdQuoteChar ' ' && cmdQuoteChar '\t'
+
+theorem cmdTableOk_holds : cmdTableOk = true := by decide +kernel
+
+theorem cmdNeedQuote_of_needQuote (a : Str) (h : needQuote a = true) : cmdNeedQuote a = true := by
+  have ht := cmdTableOk_holds
+  simp only [cmdTableOk, Bool.and_eq_true] at ht
+  simp only [needQuote, Bool.or_eq_true, contains_iff'] at h
+  simp only [cmdNeedQuote, Bool.or_eq_true, List.any_eq_true]
+  rcases h with (h | h) | h
+  · exact Or.inr ⟨' ', h, ht.1⟩
+  · exact Or.inr ⟨'\t', h, ht.2⟩
+  · exact Or.inl h
+
+theorem crt_cmdArg (v : CrtVariant) (a : Str) (hn : ∀ c ∈ a, c ≠ nul) (t : Str) (ht : IsTail t) :
+    crt v false false 0 [] (cmdArg a ++ t) = a :: crt v false false 0 [] (t.drop 1) :=
+  crt_cmdArgQ v cmdNeedQuote cmdNeedQuote_of_needQuote a hn t ht
 
 theorem cmdGo_ne_nil (q : Bool) (cs : Str) (n : Nat) (h : 0 < n ∨ cs ≠ []) : cmdGo q n cs ≠ [] := by
   induction cs generalizing n with
@@ -312,12 +291,19 @@ theorem cmdGo_ne_nil (q : Bool) (cs : Str) (n : Nat) (h : 0 < n ∨ cs ≠ []) :
     · exact ih (n + 1) (Or.inl (by omega))
     · split <;> simp
 
-theorem cmdArg_ne_nil (a : Str) : cmdArg a ≠ [] := by
-  unfold cmdArg
+theorem cmdArgQ_ne_nil (qp : Str → Bool) (hq : ∀ a, needQuote a = true → qp a = true) (a : Str) :
+    cmdArgQ qp a ≠ [] := by
+  unfold cmdArgQ
   split
   · simp
   · rename_i h
-    exact cmdGo_ne_nil _ _ _ (Or.inr (needQuote_false (by simpa using h)).1)
+    have hnq : needQuote a = false := by
+      cases h' : needQuote a with
+      | false => rfl
+      | true => exact absurd (hq a h') h
+    exact cmdGo_ne_nil _ _ _ (Or.inr (needQuote_false hnq).1)
+
+theorem cmdArg_ne_nil (a : Str) : cmdArg a ≠ [] := cmdArgQ_ne_nil cmdNeedQuote cmdNeedQuote_of_needQuote a
 
 /-- the rest of an `args2cmd` text after its first argument -/
 def cmdRest (as : List Str) : Str := (as.map fun a => ' ' :: cmdArg a).flatten
